@@ -287,6 +287,7 @@ def codec_differential(ctx):
 # (`vl` commands: it decides separation, rotation, pointers, oldest ids, the clean-up) and compared after
 # every command.
 PHYS = ("flush", "flush1", "compact", "compactauto", "reopen", "open")
+PHYS_RT = ("flush", "flush1", "compact", "compactauto")     # commands whose clean-up looks at the registered readers
 CONF_OPTS = ["lc=2,vlog=1,vth=8,vfs=64", "lc=3,vlog=1,vth=1,vfs=256", "lc=2,vlog=1,vth=0,vfs=128", "lc=2,vlog=1,vth=64,vfs=4096",
              "lc=1,vlog=1,vth=8,vfs=64", "lc=2,vlog=1,vth=8,vfs=64,vck=1", "lc=2,vlog=1,vth=8,vfs=100,foc=1",
              "lc=2,ver=1,vlog=1,vth=0,vfs=96,idx=1", "lc=3,ver=1,vlog=1,vth=0,vfs=64,idx=1,ret=1", "lc=2,ver=1,vlog=1,vth=0,vfs=128,ret=5"]
@@ -301,6 +302,10 @@ class DumpGen(G.ProgGen):
     clock = 0
 
     def emit(self, line):
+        if line.split()[1] in PHYS_RT:
+            # which readers are registered when the command runs (the run-time clean-up is skipped while there are any)
+            self.lines.append("e2 snapshots")
+            self.exp.append("-")
         a = G.ProgGen.emit(self, line)
         if line.split()[1] in PHYS:
             self.lines.append("e2 vlogdump")
@@ -321,6 +326,9 @@ def directed_program(rng, model, opts):
     lines, exp = [], []
 
     def emit(l):
+        if l.split()[1] in PHYS_RT:
+            lines.append("e2 snapshots")
+            exp.append("-")
         lines.append(l)
         exp.append(model.ask(l))
         if l.split()[1] in PHYS:
@@ -420,6 +428,113 @@ def opt_of(opts, key, default):
     return default
 
 
+def derive(lines, g, opts, stats):
+    """the `vl` script of one executed program and, per script line, what the model's answer must equal:
+    returns (script, checks, error or None).  Before every run-time physical command the script sets the number of
+    registered readers (`e2 snapshots` of the implementation) so that the model decides whether the clean-up runs."""
+    sc = ["vl new %d %d %d %d" % (opt_of(opts, "vth", 4096), opt_of(opts, "vfs", 1 << 28), opt_of(opts, "vck", 0), opt_of(opts, "idx", 0))]
+    ck = [None]
+    prev = dict(tables={}, files="", index=None)
+    for j, l in enumerate(lines):
+        if l != "e2 vlogdump" or j >= len(g):
+            continue
+        cur = parse_dump(g[j])
+        cmd = lines[j - 1].split()[1]
+        if cur is None:
+            return sc, ck, "vlogdump failed after `%s`: %s" % (lines[j - 1], g[j][:200])
+        readers = 0
+        if cmd in PHYS_RT:
+            if j < 2 or lines[j - 2] != "e2 snapshots" or not g[j - 2].startswith("snapshots:["):
+                return sc, ck, "no reader set recorded before `%s`" % lines[j - 1]
+            readers = len([x for x in g[j - 2][len("snapshots:["):-1].split(",") if x.strip()])
+        added = sorted(set(cur["tables"]) - set(prev["tables"]))
+        removed = sorted(set(prev["tables"]) - set(cur["tables"]))
+        steps = []
+        if cmd in ("compact", "compactauto"):
+            if removed or added:
+                if len(added) > 1:
+                    stats["unmodelled"] += 1
+                    return sc, ck, None
+                out = cur["tables"][added[0]][1] if added else []
+                steps.append("vl compact %s %d %s" % (",".join(map(str, removed)) or "-", added[0] if added else 0, ",".join(out) or "-"))
+                stats["compact_steps"] += 1
+        else:
+            if removed:
+                stats["unmodelled"] += 1
+                return sc, ck, None
+            for tid in added:
+                mem = [mem_entry(e) for e in cur["tables"][tid][1]]
+                if None in mem:
+                    stats["unmodelled"] += 1
+                    return sc, ck, None
+                steps.append("vl flush %d %s" % (tid, ",".join(mem) or "-"))
+                stats["flush_steps"] += 1
+            if cmd == "reopen":
+                steps.append("vl reopen")
+                stats["reopen_steps"] += 1
+        if not steps:
+            steps = ["vl state"]
+        elif cmd in PHYS_RT:
+            sc.append("vl readers %d" % readers)
+            ck.append(None)
+            if readers:
+                stats["steps_under_readers"] += 1
+        for s in steps[:-1]:
+            sc.append(s)
+            ck.append(None)
+        sc.append(steps[-1])
+        ck.append((cur, lines[:j + 1]))
+        pf = set(x.split(":")[0] for x in prev["files"].split(",") if x)
+        cf = set(x.split(":")[0] for x in cur["files"].split(",") if x)
+        stats["files_removed"] += len(pf - cf)
+        stats["rotations"] += len(cf - pf)
+        stats["tables_with_pointers"] += sum(1 for t in added if cur["tables"][t][0] > 0)
+        if prev["index"] is not None and cur["index"] is not None:
+            stats["index_entries_pruned"] += max(0, len(prev["index"]) + sum(len(cur["tables"][t][1]) for t in added if cmd not in ("compact", "compactauto")) - len(cur["index"]))
+        if cmd in PHYS_RT and steps != ["vl state"]:
+            # was a clean-up due that the readers held back?  (some file below the minimum, not the active one, still there)
+            ids = sorted(int(x) for x in cf)
+            if readers and cur["min"] and any(i < cur["min"] and i != cur["active"] for i in ids):
+                stats["cleanups_deferred"] += 1
+        prev = cur
+    return sc, ck, None
+
+
+def compare(scripts, checks, stats, disagreements):
+    shards = C.shard(list(range(len(scripts))), C.NCPU)
+    out = C.run_pairs([[l for i in sh for l in scripts[i]] for sh in shards], sides=("model",))
+    for sh, r in zip(shards, out):
+        ans = r["model"][0]
+        pos = 0
+        for i in sh:
+            a = ans[pos:pos + len(scripts[i])]
+            pos += len(scripts[i])
+            for k, c in enumerate(checks[i]):
+                if c is None:
+                    continue
+                stats["steps"] += 1
+                cur, upto = c
+                m = parse_dump(a[k]) if k < len(a) else None
+                bad = None
+                if m is None:
+                    bad = "the model refuses `%s`: %s" % (scripts[i][k][:200], (a[k] if k < len(a) else "<missing>")[:100])
+                else:
+                    for fld in ("files", "active", "next", "min", "tables", "index"):
+                        if m[fld] != cur[fld]:
+                            bad = "%s differ after `%s`: implementation %s, model %s" % (fld, upto[-2], str(cur[fld])[:300], str(m[fld])[:300])
+                            break
+                if bad:
+                    if len(disagreements) < 6:
+                        disagreements.append("value-log state machine: " + bad + " || program: " +
+                                             " ; ".join(x[3:] for x in upto if x not in ("e2 vlogdump", "e2 snapshots"))[:1500])
+                    break
+
+
+def new_stats(n):
+    return dict(programs=n, steps=0, flush_steps=0, compact_steps=0, reopen_steps=0, files_removed=0, rotations=0, tables_with_pointers=0,
+                index_entries_pruned=0, steps_under_readers=0, cleanups_deferred=0, unmodelled=0, api_mismatch=0)
+
+
 def conformance(ctx):
     rng = C.Rng(ctx["seed"] * 104729 + 5)
     n = 60 if ctx["tier"] == "quick" else 900
@@ -446,10 +561,8 @@ def conformance(ctx):
         programs.append((lines, exp, opts))
     model.close()
     got = G.run_impl([(l, e) for (l, e, _) in programs])
-    # per program: the model script and what each answer must equal
     scripts, checks = [], []
-    stats = dict(programs=len(programs), steps=0, flush_steps=0, compact_steps=0, reopen_steps=0, files_removed=0, rotations=0,
-                 tables_with_pointers=0, index_entries_pruned=0, unmodelled=0, api_mismatch=0)
+    stats = new_stats(len(programs))
     for (lines, exp, opts), g in zip(programs, got):
         g = g or []
         # the API answers must still equal the specification machine (dump lines are informational)
@@ -463,117 +576,107 @@ def conformance(ctx):
                     desc = "`%s`: implementation answers %s, specification %s (conformance run, options %s)" % (l, gj[:160], exp[j][:160], opts)
                     res["violations"].append((desc, G.replay_text("C11", desc, lines[:j + 1], exp[:j + 1], g[:j + 1])))
                 break
-        sc = ["vl new %d %d %d %d" % (opt_of(opts, "vth", 4096), opt_of(opts, "vfs", 1 << 28), opt_of(opts, "vck", 0), opt_of(opts, "idx", 0))]
-        ck = [None]
-        prev = dict(tables={}, files="", index=None)
-        ok = True
-        for j, l in enumerate(lines):
-            if l != "e2 vlogdump" or j >= len(g):
-                continue
-            cur = parse_dump(g[j])
-            cmd = lines[j - 1].split()[1]
-            if cur is None:
-                ok = False
-                res["disagreements"].append("vlogdump failed after `%s`: %s" % (lines[j - 1], g[j][:200]))
-                break
-            added = sorted(set(cur["tables"]) - set(prev["tables"]))
-            removed = sorted(set(prev["tables"]) - set(cur["tables"]))
-            steps = []
-            if cmd in ("compact", "compactauto"):
-                if removed or added:
-                    out = cur["tables"][added[0]][1] if added else []
-                    steps.append("vl compact %s %d %s" % (",".join(map(str, removed)) or "-", added[0] if added else 0, ",".join(out) or "-"))
-                    stats["compact_steps"] += 1
-                    if len(added) > 1:
-                        ok = False
-            else:
-                if removed:
-                    ok = False
-                for tid in added:
-                    mem = [mem_entry(e) for e in cur["tables"][tid][1]]
-                    if None in mem:
-                        ok = False
-                        break
-                    steps.append("vl flush %d %s" % (tid, ",".join(mem) or "-"))
-                    stats["flush_steps"] += 1
-                if cmd in ("reopen",):
-                    steps.append("vl reopen")
-                    stats["reopen_steps"] += 1
-            if not ok:
-                stats["unmodelled"] += 1
-                break
-            if not steps:
-                steps = ["vl state"]
-            for s in steps[:-1]:
-                sc.append(s)
-                ck.append(None)
-            sc.append(steps[-1])
-            ck.append((cur, lines[:j + 1]))
-            pf = set(x.split(":")[0] for x in prev["files"].split(",") if x)
-            cf = set(x.split(":")[0] for x in cur["files"].split(",") if x)
-            stats["files_removed"] += len(pf - cf)
-            stats["rotations"] += len(cf - pf)
-            stats["tables_with_pointers"] += sum(1 for t in added if cur["tables"][t][0] > 0)
-            if prev["index"] is not None and cur["index"] is not None:
-                stats["index_entries_pruned"] += max(0, len(prev["index"]) + sum(len(cur["tables"][t][1]) for t in added if cmd not in ("compact", "compactauto")) - len(cur["index"]))
-            prev = cur
+        sc, ck, err = derive(lines, g, opts, stats)
+        if err and len(res["disagreements"]) < 6:
+            res["disagreements"].append(err)
         scripts.append(sc)
         checks.append(ck)
-    shards = C.shard(list(range(len(scripts))), C.NCPU)
-    out = C.run_pairs([[l for i in sh for l in scripts[i]] for sh in shards], sides=("model",))
-    for sh, r in zip(shards, out):
-        ans = r["model"][0]
-        pos = 0
-        for i in sh:
-            a = ans[pos:pos + len(scripts[i])]
-            pos += len(scripts[i])
-            for k, c in enumerate(checks[i]):
-                if c is None:
-                    continue
-                stats["steps"] += 1
-                cur, upto = c
-                m = parse_dump(a[k]) if k < len(a) else None
-                bad = None
-                if m is None:
-                    bad = "the model refuses `%s`: %s" % (scripts[i][k][:200], (a[k] if k < len(a) else "<missing>")[:100])
-                else:
-                    for fld in ("files", "active", "next", "min", "tables", "index"):
-                        if m[fld] != cur[fld]:
-                            bad = "%s differ after `%s`: implementation %s, model %s" % (fld, upto[-2], str(cur[fld])[:300], str(m[fld])[:300])
-                            break
-                if bad:
-                    if len(res["disagreements"]) < 6:
-                        res["disagreements"].append("value-log state machine: " + bad + " || program: " + " ; ".join(x[3:] for x in upto if x != "e2 vlogdump")[:1500])
-                    break
+    compare(scripts, checks, stats, res["disagreements"])
     res["cov"] = stats
     return res
 
 
 # ------------------------------------------------------------------------------------------------------
-# (iii) the reader the model does NOT protect: a cursor opened on an older table set, held across a compaction
-# whose clean-up removes a value-log file (Props/C11.v C11_old_reader_unprotected is the model-level witness)
+# (iii) regression of C11-N1 (repaired): a cursor opened on an older table set and held across a compaction is served —
+# the clean-up after the flush / compaction is skipped while a reader is registered (Props/C11.v C11_old_reader_served) —
+# and nothing leaks: once the reader has gone, the next flush removes the files (file sets compared with the model).
 def held_reader_probe(ctx):
-    """returns (violations, known classes seen, commands)"""
-    out, known, total = [], [], 0
-    for opts, what in (("lc=2,ver=1,vlog=1,vth=0,vfs=64,ret=1", "history cursor"),):
-        L = ["e2 new", "e2 open " + opts, "e2 clock 100", "e2 begin 1 rw", "e2 set 1 61 rep:30:1", "e2 commit 1", "e2 drop 1", "e2 flush",
-             "e2 clock 200", "e2 begin 2 rw", "e2 set 2 61 rep:30:2", "e2 commit 2", "e2 drop 2", "e2 flush",
-             "e2 begin 9 ro", "e2 histopen 9 1 61 62 0", "e2 cur 1 first", "e2 clock 1000000000", "e2 compact 0", "e2 vlogdump", "e2 cur 1 next", "e2 close"]
+    """returns (violations, disagreements, commands)"""
+    out, dis, total = [], [], 0
+    v1, v2 = C.rep(30, 1), C.rep(30, 2)
+    s1, s2 = "#%d/%s" % (len(v1), C.fnv(v1)), "#%d/%s" % (len(v2), C.fnv(v2))
+    variants = [
+        ("history cursor (versioning, retention passed)", "lc=2,ver=1,vlog=1,vth=0,vfs=64,ret=1", "e2 histopen 9 1 61 62 0", "cur:61=" + s2, "cur:61=" + s1),
+        ("range cursor", "lc=2,vlog=1,vth=0,vfs=64", "e2 range 9 1 ~ ~", "cur:61=" + s2, "cur:invalid"),
+    ]
+    scripts, checks, stats = [], [], new_stats(len(variants))
+    for what, opts, opencur, first, nxt in variants:
+        L, want = [], {}
+
+        def emit(l, expect=None):
+            if l.split()[1] in PHYS_RT:
+                L.append("e2 snapshots")
+            if expect is not None:
+                want[len(L)] = expect
+            L.append(l)
+            if l.split()[1] in PHYS:
+                L.append("e2 vlogdump")
+        emit("e2 new")
+        emit("e2 open " + opts)
+        for tx, clk, sd in ((1, 100, 1), (2, 200, 2)):
+            emit("e2 clock %d" % clk)
+            emit("e2 begin %d rw" % tx)
+            emit("e2 set %d 61 rep:30:%d" % (tx, sd))
+            emit("e2 commit %d" % tx)
+            emit("e2 drop %d" % tx)
+            emit("e2 flush")
+        emit("e2 begin 9 ro")
+        emit(opencur, "ok")
+        emit("e2 cur 1 first", first)
+        emit("e2 clock 1000000000")
+        emit("e2 compact 0")
+        # ... and a flush while the reader is still open (the other run-time call site of the clean-up)
+        emit("e2 begin 5 rw")
+        emit("e2 set 5 63 rep:30:5")
+        emit("e2 commit 5")
+        emit("e2 drop 5")
+        emit("e2 flush")
+        d_held = len(L) - 1
+        emit("e2 cur 1 next", nxt)                      # the cursor advances over its OLD table set
+        emit("e2 get 9 61", "val:" + s2)
+        emit("e2 curclose 1")
+        emit("e2 drop 9")
+        emit("e2 begin 3 rw")
+        emit("e2 set 3 62 rep:30:3")
+        emit("e2 commit 3")
+        emit("e2 drop 3")
+        emit("e2 flush")                                # no reader any more: the deferred clean-up runs
+        d_after = len(L) - 1
+        emit("e2 begin 4 ro")
+        emit("e2 get 4 61", "val:" + s2)
+        emit("e2 scan 4 - ff00 f")
+        emit("e2 close")
         ans = C.run_pairs([L], sides=("impl",), timeout=120)[0]["impl"][0]
         total += len(L)
-        a = ans[len(L) - 2] if len(ans) >= len(L) - 1 else "<missing>"
-        v1 = C.rep(30, 1)
-        good = ("cur:61=#%d/%s" % (len(v1), C.fnv(v1)), "cur:invalid")
-        if a not in good:
-            desc = ("a %s opened before a compaction and advanced after it fails: `%s` -> %s (the compaction dropped the version written at "
-                    "clock 100, past retention, and the clean-up removed value-log file 1 while the cursor's table set still points into it)" % (what, L[-2], a[:300]))
-            text = "\n".join(["# property=C11", "# oracle: a read returns the value written or nothing, never an error", "# options: " + opts] +
+        bad = None
+        if len(ans) < len(L):
+            bad = "the run stopped after %d of %d commands: %s" % (len(ans), len(L), ans[-1:])
+        else:
+            for k, e in sorted(want.items()):
+                if ans[k] != e:
+                    bad = "`%s` answers %s, expected %s" % (L[k], ans[k][:300], e)
+                    break
+            held, after = parse_dump(ans[d_held]), parse_dump(ans[d_after])
+            if bad is None and (held is None or after is None):
+                bad = "vlogdump failed: %s / %s" % (ans[d_held][:100], ans[d_after][:100])
+            if bad is None and not held["files"].startswith("1:"):
+                bad = "value-log file 1 was removed by the compaction / flush although reader 9 is open: files %s" % held["files"]
+            if bad is None and after["files"].startswith("1:"):
+                bad = "value-log file 1 is still there after the reader has gone and a flush has run (leak): files %s, min %d" % (after["files"], after["min"])
+        if bad:
+            desc = "%s held across a compaction, options %s: %s" % (what, opts, bad)
+            text = "\n".join(["# property=C11", "# oracle: an open reader is served from the table set it holds; the files go once it has gone", "# options: " + opts] +
                              ["> %s\nIMPL:  %s" % (l, ans[i] if i < len(ans) else "<missing>") for i, l in enumerate(L)]) + "\n"
-            if "Failed_to_resolve_value_from_VLog" in a and "No_such_file" in a:
-                known.append(("held_reader_vlog_file_removed", desc, text))
-            else:
-                out.append((desc, text))
-    return out, known, total
+            out.append((desc[:600], text))
+            continue
+        sc, ck, err = derive(L, ans, opts, stats)
+        if err:
+            dis.append(err)
+        scripts.append(sc)
+        checks.append(ck)
+    if ctx["have_model"] and scripts:
+        compare(scripts, checks, stats, dis)
+    return out, dis, total, stats
 
 
 def explore(ctx):
@@ -611,20 +714,16 @@ def explore(ctx):
     cov["evaluations"] += cf["cov"].get("steps", 0)
     cov["disagreements_checked"] += cf["cov"].get("steps", 0)
     cov["distinct_nontrivial"] += cf["cov"].get("compact_steps", 0)
-    # (iii) held reader
-    hv, hk, hn = held_reader_probe(ctx)
-    kf = C.known_findings("C11")
-    for cls, desc, text in hk:
-        if cls in kf:
-            r["known"].append(kf[cls])
-        else:
-            hv.append((desc, text))
+    # (iii) held reader: regression probe of the repaired C11-N1
+    hv, hd, hn, hs = held_reader_probe(ctx)
     r["violations"] += hv[:1]
-    cov["evaluations"] += hn
+    r["disagreements"] += hd
+    cov["evaluations"] += hn + hs.get("steps", 0)
+    cov["held_reader_probe"] = dict(variants=hs.get("programs"), model_steps=hs.get("steps"), cleanups_deferred=hs.get("cleanups_deferred"), files_removed=hs.get("files_removed"))
     cov["rule"] += ("; plus (i) the value-log codec differential (`vp`: pointer / location encode-decode with boundary and malformed inputs, a value log of its own with "
                     "rotation, reads at both checksum levels, clean-up, reopen; memtable flush with separation) model vs implementation vs a python oracle; (ii) state-machine "
                     "conformance: the real value-log directory, writer ids, every live table's oldest_vlog_file_id and stored values, and the version index after every physical "
-                    "command vs the extracted Lsm/Vlog.v machine replaying the same flush / compaction / reopen sequence; (iii) a directed probe of a cursor held across a clean-up")
+                    "command vs the extracted Lsm/Vlog.v machine replaying the same flush / compaction / reopen sequence WITH the number of registered readers at each command (the run-time clean-up is skipped while there are any); (iii) regression probes of cursors held across a compaction: served from their old table set, files removed once the reader has gone")
     return r
 
 
